@@ -490,3 +490,22 @@ def a1_type_table(ctx, geo):
                   f"export_attribute writes `{bs}` on header line {bs_line} of the chunk of a {name} attribute and the reader "
                   f"applies int() to that line: a mesh carrying a {name} attribute cannot be reloaded",
                   note=f"byte_size({name}) = {bs}")
+
+
+
+# ----------------------------------------------------------------------- generic families (msa/rules/generic.py)
+_run_specific = run
+
+
+def run(ctx):
+    _run_specific(ctx)
+    from ..rules import generic
+    generic.apply(ctx, "C04", stale_modules=())
+
+
+def _generic_rule_texts():
+    from ..rules import generic
+    return generic.rule_texts("C04", stale=False)
+
+
+RULES.update(_generic_rule_texts())
